@@ -11,6 +11,9 @@ MUT=${MUT:-/var/tmp/rtmut}
 for s in $SEEDS; do
   id=${s%%_*}
   rm -rf $MUT; rsync -a --exclude target --exclude .git /repo/ $MUT/
+  # cargo's freshness check is mtime based ("a source newer than the last build"): a file RESTORED by rsync carries its old mtime, so a crate
+  # that the previous mutant changed and this one does not would silently keep the previous mutant's artefact.  Make every crate root new.
+  touch $MUT/frost-*/src/lib.rs
   if ! (cd $MUT && patch -s -p1 < $SD/$s/patch.diff) >/dev/null 2>&1; then echo "$s PATCH-DOES-NOT-APPLY"; continue; fi
   out=$TD/seeded-$s.json; rm -f $out
   t0=$(date +%s)
